@@ -182,8 +182,9 @@ CONFIGS: Dict[str, Dict[str, List[Dict[str, Any]]]] = {
         ],
     },
     "PacMan": {
-        "quick": [_c("default"), _c("L7", time_limit=7)],
-        "thorough": [_c("default"), _c("L1", time_limit=1), _c("L2", time_limit=2), _c("L3", time_limit=3), _c("L7", time_limit=7), _c("L60", time_limit=60)],
+        "quick": [_c("default"), _c("L7", time_limit=7), _c("small12x13L40", maze="small", time_limit=40)],
+        "thorough": [_c("default"), _c("L1", time_limit=1), _c("L2", time_limit=2), _c("L3", time_limit=3), _c("L7", time_limit=7), _c("L60", time_limit=60),
+                     _c("small12x13L40", maze="small", time_limit=40), _c("small12x13L3", maze="small", time_limit=3)],
     },
     "RobotWarehouse": {
         "quick": [_c("default"), _c("s2x1h3a2r1q2L7", shelf_rows=2, shelf_cols=1, height=3, agents=2, sensor=1, queue=2, time_limit=7)],
@@ -217,6 +218,24 @@ CONFIGS: Dict[str, Dict[str, List[Dict[str, Any]]]] = {
         "thorough": [_c("default"), _c("n1", cities=1), _c("n2", cities=2), _c("n5sparse", cities=5, reward="sparse"), _c("n5", cities=5), _c("n20sparse", cities=20, reward="sparse")],
     },
 }
+
+
+# a small non-square ASCII maze (12 rows x 13 columns) with a tunnel row, four ghosts, four power-ups, four scatter
+# and four initial targets, in the format documented for AsciiGenerator
+PACMAN_SMALL_MAZE = [
+    "XXXXXXXXXXXXX",
+    "XS    X    SX",
+    "X XXX X XXX X",
+    "XO         OX",
+    "X X XTXT  X X",
+    "    XG GX    ",
+    "X X XGXGX X X",
+    "X   T   T   X",
+    "X XXX X XXX X",
+    "XO    P    OX",
+    "XS         SX",
+    "XXXXXXXXXXXXX",
+]
 
 
 def configs(env: str, tier: str) -> List[Dict[str, Any]]:
@@ -435,6 +454,10 @@ def build(env: str, cfg: Dict[str, Any]):
             kw["reward_fn"] = R(veh, cust, 10)
         return E.MultiCVRP(**kw)
     if env == "PacMan":
+        if c.get("maze") == "small":
+            from jumanji.environments.routing.pac_man.generator import AsciiGenerator
+
+            return E.PacMan(generator=AsciiGenerator(PACMAN_SMALL_MAZE), **tl)
         return E.PacMan(**tl)
     if env == "RobotWarehouse":
         from jumanji.environments.routing.robot_warehouse.generator import RandomGenerator
